@@ -57,11 +57,23 @@ def v1(ctx, fx):
     if not loops:
         ctx.finding("C03.V1", writer, "loop", "the map writer does not iterate over input_disclosures")
         return
-    lp = loops[0]
+    # the loop that fills the maps is the one the inserts are in
+    ins_bbs = [b for (b, _) in c07.map_insert_events(writer, DECODED)] + [b for (b, _) in c07.map_insert_events(writer, RAW)]
+    with_ins = [l_ for l_ in loops if any(b in set().union(*[cfg.reachable(writer, [d_], removed_blocks=[l_.bb]) for d_ in l_.body_entries]) for b in ins_bbs)]
+    lp = (with_ins or loops)[0]
     srcs = lp.sources()
-    if any(ad for (_, ad) in srcs):
-        ctx.finding("C03.V1", writer, "loop", "the iteration over input_disclosures uses adaptors %s (some presented disclosures may be skipped)" % [ad for (_, ad) in srcs])
+    zi = _zipped_image(writer, lp, loops)
     is_elem = lambda x: item_path(x, lp.node) == []
+    image = None
+    if zi is not None:
+        # `for (s, decoded) in input_disclosures.iter().zip(decoded_all)`, decoded_all built by an earlier complete loop over the same list
+        # with one push per element: the second component is the image of the first under what that loop pushed
+        ei, ii, lp2, pushed = zi
+        is_elem = lambda x: item_path(x, lp.node) == [ei]
+        image = (ii, lp2, pushed)
+        ctx.ok("C03.V1", writer, "loop-zip", "the presented strings are zipped with a vector built by one push per element of the same list (equal length, same order)", line=writer.term(lp.bb).get("line"))
+    elif any(ad for (_, ad) in srcs):
+        ctx.finding("C03.V1", writer, "loop", "the iteration over input_disclosures uses adaptors %s (some presented disclosures may be skipped)" % [ad for (_, ad) in srcs])
     ninserts = 0
     events = [(b, n, DECODED) for (b, n) in c07.map_insert_events(writer, DECODED)] + [(b, n, RAW) for (b, n) in c07.map_insert_events(writer, RAW)]
     for (b, n, which) in sorted(events, key=lambda e: e[0]):
@@ -70,14 +82,27 @@ def v1(ctx, fx):
         key, val = n.kids[1], n.kids[2]
         hs = [x for x in walk(key) if x.kind == "call" and (x.d["term"].get("resolved") or "") == "utils::base64_hash"]
         key_ok = bool(hs) and must(key, lambda x: x in hs) and all(must(h.kids[0], is_elem) for h in hs)
-        tainted = may(key, lambda x: x.kind == "call" and (x.d["term"].get("resolved") or "") in ("utils::base64url_decode", "serde_json::from_slice", "serde_json::from_str"))
+        # a decoding step between the key and the presented element (what the iterator that yields the element was built from does not count)
+        tainted, stack_, seen_ = False, [key], set()
+        while stack_:
+            x = stack_.pop()
+            if id(x) in seen_ or is_elem(x):
+                continue
+            seen_.add(id(x))
+            if x.kind == "call" and (x.d["term"].get("resolved") or "") in ("utils::base64url_decode", "serde_json::from_slice", "serde_json::from_str"):
+                tainted = True
+                break
+            stack_.extend(x.kids)
         if key_ok and not tainted:
             ctx.ok("C03.V1", writer, "key:%s" % which, "key = base64_hash(bytes of the presented disclosure string)", line=t.get("line"))
         else:
             ctx.finding("C03.V1", writer, "key:%s" % which, "the map key is not the digest of the presented string as presented (%s): a re-encoded disclosure could match" % vstr(key, 4), line=t.get("line"))
         if which == DECODED:
-            vok = must(val, lambda x: x.kind == "call" and (x.d["term"].get("resolved") or "") == "serde_json::from_slice"
-                       and must(x.kids[0], lambda y: y.kind == "call" and (y.d["term"].get("resolved") or "") == "utils::base64url_decode" and must(y.kids[0], is_elem)))
+            dval, delem = val, is_elem
+            if image is not None and item_path(val, lp.node) == [image[0]]:
+                dval, delem = image[2], (lambda x, l2=image[1]: item_path(x, l2.node) == [])
+            vok = must(dval, lambda x: x.kind == "call" and (x.d["term"].get("resolved") or "") == "serde_json::from_slice"
+                       and must(x.kids[0], lambda y: y.kind == "call" and (y.d["term"].get("resolved") or "") == "utils::base64url_decode" and must(y.kids[0], delem)))
             chk(ctx, "C03.V1", writer, t.get("line"), "value:decoded", vok, "decoded value = from_slice(base64url_decode(element))", "the decoded value does not come from decoding the same presented string: %s" % vstr(val, 4))
         else:
             chk(ctx, "C03.V1", writer, t.get("line"), "value:raw", must(val, is_elem), "raw value is the presented string itself", "the raw disclosure stored is not the presented string: %s" % vstr(val, 4))
@@ -107,9 +132,97 @@ def v1(ctx, fx):
                 if c.kind == "call" and c.d["term"].get("name") == "insert" and len(c.kids) == 2 and (c.d["term"].get("self_ty") or "").startswith(unpackmodel.SET_TYS) \
                         and c07.same_key(c.kids[1], key) and fresh_local_root(c.kids[0]):
                     good.append((bb, tt))
-        chk(ctx, "C03.V1", writer, t.get("line"), "dup:%s" % which, bool(good) and guarded(writer, b, good), "insert dominated by the digest-not-yet-present edge (contains_key==false / Entry::Vacant): a repeated disclosure is an Err",
+        # `if decoded.insert(key, v).is_some() { return Err(..) }`: the edge on which the insert found no earlier entry plays the role of
+        # contains_key == false, provided the other edge only leads to Err exits
+        own_dup = False
+        for (b2, n2) in c07.map_insert_events(writer, DECODED):
+            if getattr(n2, "via", "") != "insert" or not c07.same_key(n2.kids[1], key):
+                continue
+            had, fresh = success_edges(writer, n2.call)
+            if not had or not fresh:
+                continue
+            after = set()
+            for (_, tgt) in had:
+                after |= cfg.reachable(writer, [tgt], removed_edges=fresh)
+            exits = [e for e in cfg.exit_sites(writer) if e["bb"] in after]
+            if exits and all(e["kind"] == "Err" for e in exits) and lp.bb not in after:
+                if b2 == b:
+                    own_dup = True
+                else:
+                    good.extend(fresh)
+        chk(ctx, "C03.V1", writer, t.get("line"), "dup:%s" % which, own_dup or (bool(good) and guarded(writer, b, good)), "insert dominated by the digest-not-yet-present edge (contains_key==false / Entry::Vacant): a repeated disclosure is an Err",
             "a repeated disclosure silently overwrites the earlier entry (no contains_key check before the insert)")
     ctx.floor("C03.V1", "inserts into the digest maps", ninserts, 2)
+
+
+def _zipped_image(writer, lp, loops):
+    """the loop iterates zip(A, B) where one side is the plain iteration of input_disclosures and the other a vector that an earlier loop over
+    the plain iteration of input_disclosures built with exactly one push per element (leaving only through an Err otherwise). Returns
+    (element component, image component, the earlier loop, the pushed value) or None"""
+    z = common._zip_of_item(lp.node)
+    if z is None or len(z.kids) != 2:
+        return None
+
+    def plain_list(v):
+        v = peel(v)
+        g = 0
+        while v.kind == "call" and v.d["term"].get("name") in ("iter", "into_iter", "deref", "as_slice") and v.kids and g < 6:
+            v = peel(v.kids[0])
+            g += 1
+        return is_field(v, "input_disclosures")
+
+    for (ei, ii) in ((0, 1), (1, 0)):
+        if not plain_list(z.kids[ei]):
+            continue
+        v = peel(z.kids[ii])
+        g = 0
+        while v.kind == "call" and v.d["term"].get("name") in ("iter", "into_iter") and v.kids and g < 4:
+            v = peel(v.kids[0])
+            g += 1
+        # the vector's history: empty constructor, then pushes
+        roots, pushes, seen, stack = [], {}, set(), [v]
+        okh = True
+        while stack and len(seen) < 400:
+            x = peel(stack.pop())
+            if id(x) in seen:
+                continue
+            seen.add(id(x))
+            if x.kind == "mut" and len(x.kids) == 2:
+                c = x.kids[1]
+                if c.kind == "call" and c.d["term"].get("name") == "push" and len(c.kids) == 2:
+                    pushes[c.d.get("bb")] = c
+                    stack.append(x.kids[0])
+                else:
+                    okh = False
+            elif x.kind == "phi":
+                stack.extend(k for k in x.kids if k.kind != "cycle")
+            elif x.kind == "call" and x.d["term"].get("name") in ("new", "with_capacity") and (x.d["term"].get("self_ty") or "").startswith("std::vec::Vec"):
+                roots.append(x)
+            else:
+                okh = False
+        if not okh or len(pushes) != 1 or not roots:
+            continue
+        pb, pc = list(pushes.items())[0]
+        for lp2 in loops:
+            if lp2 is lp or any(ad for (_, ad) in lp2.sources()):
+                continue
+            body = set()
+            for d_ in lp2.body_entries:
+                body |= cfg.reachable(writer, [d_], removed_blocks=[lp2.bb])
+            if pb not in body:
+                continue
+            # one push per element: the header is not reached again without the push, the push does not repeat within an iteration, and the
+            # loop is left early only through an Err
+            again = any(lp2.bb in cfg.reachable(writer, [d_], removed_blocks=[pb]) for d_ in lp2.body_entries)
+            repeat = pb in cfg.reach_strict(writer, pb, removed_blocks=[lp2.bb])
+            early = [e for (l_, e) in common.loop_early_exits(writer) if l_.bb == lp2.bb]
+            if again or repeat or early:
+                continue
+            # the zip loop starts only after that loop has finished
+            if lp.bb in body:
+                continue
+            return (ei, ii, lp2, pc.kids[1])
+    return None
 
 
 def guarded_block(fn, site, blk):
